@@ -159,3 +159,21 @@ fn f04c_second_bitstring_fragment() {
     });
     assert_eq!(r.ok(), Some(Some((2049, 16392, 0xFF))));
 }
+
+#[test]
+fn f04l_open_type_content_cannot_leave_its_length() {
+    use asn1rs::protocol::per::unaligned::buffer::BitBuffer;
+    use asn1rs::protocol::per::unaligned::BitWrite;
+    use asn1rs::protocol::per::PackedWrite;
+    let mut w = BitBuffer::default();
+    w.write_bit(true).unwrap(); // extension bit
+    w.write_bit(true).unwrap(); // a
+    w.write_normally_small_non_negative_whole_number(0).unwrap(); // one addition
+    w.write_bit(true).unwrap(); // b present
+    w.write_bits(&[0x01]).unwrap(); // open type: 1 octet
+    w.write_bits(&[0x03, 0xAA, 0xBB, 0xCC]).unwrap(); // inner OCTET STRING claims 3 octets
+    let n = w.bit_len();
+    let bytes: Vec<u8> = w.into();
+    let mut r = R::from((&bytes[..], n));
+    assert!(r.read::<v1::S>().is_err());
+}
